@@ -6,11 +6,24 @@ R1  paired decrement: on the flight path a point's fuel_mass / aircraft_mass are
 R2  clamp dominance: in the level-change phase the subtracted segment fuel is,
     on every path, last written by the non-negativity clamp or by a
     definition the clamp test dominates.
-R3  buffer-view discipline of the growable container (dataflow): a value read
-    from `self._data[k]` that may be a capacity-length per-point buffer may
-    only be used through the `[: self._size]` view, as the append slot
-    `[self._size] =`, as an argument of the whole-buffer operations, or indexed
-    by an index a dominating raise-guard proves to be in [0, _size).
+R3  buffer-view discipline of the growable container (forward must-dataflow on
+    the CFG of every method of Container and its subclasses).  A value read
+    from the field table (`self._data[k]`, `self._data.get(k)`, a loop over
+    `.values()` / `.items()`, or any local such a value flows into) may be a
+    capacity-length per-point buffer unless the branches taken on *every* path
+    to the use say otherwise (isinstance / type() / match class patterns /
+    `is None` / dimension tests on the field's metadata / assert, in either
+    polarity, through and/or/not, early return, continue, raise).  While it may
+    be one it is used only through the `[: self._size]` view, as the append slot
+    `[self._size] =`, as an argument of the whole-buffer operations, in a
+    length-independent way (.dtype, identity tests), or indexed by an index
+    that the paths to the use prove to be in [0, _size) (comparisons in either
+    orientation, chained, `in range(_size)`, loop over `range(_size)`; the
+    fact dies when the index or `_size` is written).  It is not returned,
+    stored elsewhere, iterated, compared element-wise or passed on raw.
+    Growth raises the capacity once and stores every resized array back into
+    its slot; append has room (size < capacity on the path, or just grown)
+    when slot `_size` is written and counts the point afterwards.
 R4  position <-> distance pairing: positions written to a point come from
     ground_track.step(pt.ground_distance, d) and the same d is added to
     pt.ground_distance in that block; longitude<-longitude, latitude<-latitude.
@@ -22,6 +35,10 @@ R6  infeasible schedules raise before the context is completed; the 3000 ft
     offsets and their ceiling fall-backs have the documented shape.
 R7  accumulators: flight_time and ground_distance start at 0 and are only
     ever added to.
+R9  resampling interpolates every per-point field against the trajectory's own
+    flight-time view (x = new times, xp = own times, fp = the field view,
+    NaN outside), copies per-trajectory fields, sizes the result by the new
+    time vector.
 R10 out-of-envelope states are refused rather than extrapolated or filled with
     NaN: the evaluate path of the performance model interpolates only with
     bounds-checked scipy interpn (C06-R2).
